@@ -115,7 +115,13 @@ def one(arg):
                 meas = lambda x, yy: abs(pd.concat([x, yy], axis=1).dropna().corr().iloc[0, 1])
             exp, amb, vals = oracle_select(X, y, feats, dtype, n_best, tc, meas)
             if amb: continue
-            rec('select#post.best_ranked_mutually_unassociated_features', got == exp, '%s %s: returned %r, recomputation gives %r (measures %r)' % (kind, dtype, got, exp, {k: round(v, 4) for k, v in vals.items()}), dict(dtype=dtype))
+            extra_w = dict(dtype=dtype)
+            if kind == 'RegressionSelector' and dtype == 'str' and got != exp:
+                # known finding D25: with the reversed Kruskal measure a qualitative feature holding missing values gets an undefined measure
+                meas_nan = lambda x, yy: float('nan') if x.isna().any() else meas(x, yy)
+                exp_nan, _, _ = oracle_select(X, y, feats, dtype, n_best, tc, meas_nan)
+                extra_w.update(returned=got, expected=exp, expected_if_features_with_missing_values_are_undefined=exp_nan)
+            rec('select#post.best_ranked_mutually_unassociated_features', got == exp, '%s %s: returned %r, recomputation gives %r (measures %r)' % (kind, dtype, got, exp, {k: round(v, 4) for k, v in vals.items()}), extra_w)
             # no two returned features of a type associated above thresh_corr
             for a, b in itertools.combinations(got, 2):
                 c = abs(X[[a, b]].corr('spearman').iloc[0, 1]) if dtype == 'float' else tschuprow(X[a], X[b])
